@@ -127,6 +127,8 @@ structure Effect (s s' : Shared) : Prop where
   deqd : s'.deqd = s.deqd
   flushed : s'.flushed = s.flushed
   handled : s'.handled = s.handled
+  taken : s'.taken = s.taken
+  dropped : s'.dropped = s.dropped
   rxOpen : s'.rxOpen = s.rxOpen
   rxStopped : s'.rxStopped = s.rxStopped
   stoppedByOther : s'.stoppedByOther = s.stoppedByOther
